@@ -467,6 +467,12 @@ def alloc_items(tier):
                 if api:
                     for j in ("1", "2"):  # only one of the two successors is declared the other way
                         out.append((dict(base_, link_api_for={j: api}), {"rule": rule, "max_time": 20}))
+    # a sub-project task that is worked by people (auto_task=False) competing with a plain task for one worker
+    for hw, lw in ((2.0, 5.0), (5.0, 2.0), (3.0, 3.0)):
+        sp = {"tasks": [{"name": "H", "work": hw, "sub": {"auto": False}}, {"name": "L", "work": lw}], "links": [],
+              "teams": [{"name": "TM0", "targets": [0, 1], "workers": [{"name": "w", "skills": {"H": 1.0, "L": 1.0}, "cost": 1.0}]}]}
+        for rule in ("SPT", "LPT", "TSLACK"):
+            out.append((sp, {"rule": rule, "max_time": 20}))
     # IDs and names that are unique per kind only (teams and workplaces numbered alike; two tasks of one name under different teams)
     for sp in F.id_namespace_specs() + F.named_machine_specs() + F.half_wired_workplace_specs():
         for rule in ("SPT", "LPT", "TSLACK"):
